@@ -273,4 +273,20 @@ instance (L : ListenerParams) : Decidable L.Good := by unfold ListenerParams.Goo
 out this time one whose `Accept()` can block for a stream (`true`), or the earlier one, which returns EOF at once? -/
 def reacceptUsable (L : ListenerParams) (earlierClosed : Bool) : Bool := L.listenerReplaces || !earlierClosed
 
+/-- fact: the knock for a brokered connection is sent by the dial function handed to gRPC — the function gRPC calls for
+EVERY transport it creates for that connection (the first, and each one after a GOAWAY, a keepalive failure or a
+transport error) — in the same critical section that opens the stream; not once by `Dial` itself -/
+structure DialerParams where
+  knockPerTransport : Bool
+  deriving DecidableEq, Repr
+
+def DialerParams.Good (D : DialerParams) : Prop := D.knockPerTransport = true
+instance (D : DialerParams) : Decidable D.Good := by unfold DialerParams.Good; exact inferInstance
+
+/-- of the `transports` streams a brokered connection for `id` opens over its life, the tags the accepting side sees
+them with: announced by a knock of their own (`brokered id`), or unannounced — which the accepting side's muxer hands
+to the MAIN listener -/
+def transportTags (D : DialerParams) (id transports : Nat) : List Tag :=
+  (List.range transports).map (fun k => if D.knockPerTransport || k == 0 then Tag.brokered id else Tag.main)
+
 end GoPlugin.GrpcMux
